@@ -350,6 +350,24 @@ def task_fn(task, ctx: Ctx):
                     if eq and (a.foreground, a.background) != (b.foreground, b.background):
                         ctx.violation("roundtrip", "C18/equal-describe/cross-depth", case, f"equal specs describe differently: {a!r} vs {b!r}")
                     ctx.obs(fa, fb, bg, d1, d2, eq)
+    elif kind == "uppercase":
+        # hexadecimal digits may be written in upper case: the same specification as in lower case, at every depth that can express it
+        _, depth = task
+        for lo in ("#fa0", "#0cf", "g#a0", "g#ff", "#ff8700", "#0a1b2c", "#abcdef"):
+            up = lo[0] + lo[1:].upper() if not lo.startswith("g#") else "g#" + lo[2:].upper()
+            for as_bg in (False, True):
+                ctx.count("evaluations")
+                case = {"fg": up, "depth": depth, "uppercase": True, "as_bg": as_bg}
+                res = []
+                for spec_s in (lo, up):
+                    try:
+                        res.append(AttrSpec("default", spec_s, depth) if as_bg else AttrSpec(spec_s, "default", depth))
+                    except AttrSpecError:
+                        res.append("rejected")
+                    except Exception as e:  # noqa: BLE001
+                        res.append(f"EXC:{exc_site(e)}")
+                if res[0] != res[1] and not (isinstance(res[0], str) and isinstance(res[1], str) and res[0] == res[1]):
+                    ctx.violation("roundtrip", f"C18/uppercase-hex/depth{depth if depth < 2**24 else 'true'}", case, f"{lo!r} gives {res[0]!r} but {up!r} gives {res[1]!r}")
     elif kind == "subclass":
         # applications subclass AttrSpec: equal specifications have equal hashes whatever their class, and copy_modified() keeps the class
         class Sub(AttrSpec):
@@ -444,6 +462,7 @@ def run(tier, R):
         for part in chunks(strings, 400 if tier == "quick" else 4000):
             tasks.append(("malformed", depth, part))
         tasks.append(("mustreject", depth))
+        tasks.append(("uppercase", depth))
     for part in chunks(COVER_FG + BASIC_NAMES, 5):
         tasks.append(("crossdepth", part))
         tasks.append(("subclass", part))
